@@ -1,7 +1,7 @@
 (* C20 — the documented meaning of TreeBuilderRegistry.lookup, stated over the
    registration history (oldest first), with no per-feature index. *)
 From Coq Require Import List NArith Bool.
-From BS Require Import Model.Registry.
+From BS Require Import Base.Types Model.Registry.
 Import ListNotations.
 Open Scope N_scope.
 
